@@ -361,9 +361,15 @@ pub fn direct_parsers(inputs: &[String]) -> Vec<(String, String, String)> {
     use crate::driver::sim_io;
     let mut out = Vec::new();
     crate::world::install_panic_hook();
-    struct Null;
+    struct Null(u64);
     impl sim_io::Console for Null {
-        fn emit(&mut self, _: &'static str, _: u32, _: &str) {}
+        fn emit(&mut self, _: &'static str, _: u32, _: &str) {
+            // the print reader writes as it goes: endless output is a hang, not a result
+            self.0 += 1;
+            if self.0 > 1_200_000 {
+                std::panic::resume_unwind(Box::new(crate::world::SimSpin));
+            }
+        }
         fn flush(&mut self) -> std::io::Result<()> {
             Ok(())
         }
@@ -397,7 +403,7 @@ pub fn direct_parsers(inputs: &[String]) -> Vec<(String, String, String)> {
                     }
                     _ => {
                         let vm = VM::new();
-                        let prev = sim_io::install(Box::new(Null));
+                        let prev = sim_io::install(Box::new(Null(0)));
                         let _ = p.3.parse(&vm, text);
                         let _ = sim_io::uninstall();
                         if let Some(c) = prev {
@@ -405,9 +411,13 @@ pub fn direct_parsers(inputs: &[String]) -> Vec<(String, String, String)> {
                         }
                     }
                 }));
-                if r.is_err() {
+                if let Err(payload) = r {
                     let _ = sim_io::uninstall();
-                    let key = crate::world::take_last_panic().map(|(_, f, l)| panic_key(&f, l)).unwrap_or_else(|| "?".to_owned());
+                    let key = if payload.is::<crate::world::SimSpin>() {
+                        "endless_output".to_owned()
+                    } else {
+                        crate::world::take_last_panic().map(|(_, f, l)| panic_key(&f, l)).unwrap_or_else(|| "?".to_owned())
+                    };
                     let name = ["preprocessor", "data_loader", "interpreter", "print_reader"][which];
                     out.push((name.to_owned(), text.clone(), key));
                 }
@@ -447,6 +457,13 @@ pub fn judge(case: &Case, ex: &Exec) -> Vec<Violation> {
     }
     for (parser, text, key) in &ex.parser_panics {
         let t: String = text.chars().take(120).collect();
+        if key == "endless_output" {
+            v.push(Violation::new(
+                format!("C15:hang{{direct:{}}}", parser),
+                format!("the {} never stops writing for the string {:?}", parser, t),
+            ));
+            continue;
+        }
         v.push(Violation::new(
             format!("C15:panic@{}{{direct:{}}}", key, parser),
             format!("the {} aborted on the string {:?} ({})", parser, t, key),
